@@ -241,6 +241,13 @@ def oracle_atom(exp: Expect, tbl, z, a, symbol):
             for f in ("b_c", "coherent", "total", "absorption", "b_c_complex"):
                 if getattr(n, f) is not None:
                     bad.append((f + "-absent", "None", P.tok(getattr(n, f) if f != "b_c_complex" else 1.0)))
+        if not n.has_sld():
+            # the sld() route reports the same thing: no number (the property does not fix the shape of the
+            # report - a triple of None as documented, or None - so only "answers, and with no number" is judged)
+            r = P.observe(lambda: n.sld())
+            flat = list(r) if isinstance(r, (tuple, list)) else [r]
+            if any(x is not None for x in flat):
+                bad.append(("sld()-without-data", "None", "X" if r == "X" else repr(r)[:60]))
         return bad
     gap_bc = (z, row["a"]) == (63, 151) and row["b_c"][0] == "missing"
     gap_tot = (z, row["a"]) == (54, 0) and row["tot"][0] == "missing"
